@@ -68,6 +68,39 @@ def register(w):
         "properties": ["C04"],
     })
 
+    C.register(w, {
+        "key": f"{F}::_parse_source_for_lambda",
+        "params": {"ast_source": "py", "caller_name": "py"},
+        "raises": {"Exception": "any"},
+        "ensures": ["result is None or (isinstance(result, ast.Lambda) and wf(result))"],
+        "abstract": True, "trusted": True,
+        "assumes": ["_parse_source_for_lambda (tokenizer-driven source recovery, C03: bounded there) "
+                    "returns None or a well-formed Lambda, or raises"],
+        "properties": ["C04"],
+    })
+    C.register(w, {
+        "key": f"{K}._resolve_helper",
+        "self": K,
+        "params": {"helper": "py", "helper_ast": "py"},
+        "raises": {"Exception": "any"},
+        "ensures": ["same(self._ignore_stack, old(self._ignore_stack))"],
+        "abstract": True, "trusted": True,
+        "assumes": ["_resolve_helper (a fresh visitor over the helper's own closure, C05: bounded "
+                    "there) does not touch this visitor's ignore stack"],
+        "properties": ["C04"],
+    })
+    C.register(w, {
+        "key": f"{K}.visit_Name",
+        "self": K,
+        "params": {"node": "py"},
+        "requires": ["isinstance(node, ast.Name)", "wf(node)"],
+        "raises": {"Exception": "any"},
+        # a name on the ignore stack (bound inside the lambda) is never replaced
+        "ensures": ["implies(any(a == node.id for a in flat(old(self._ignore_stack))), same(result, node))",
+                    "same(self._ignore_stack, old(self._ignore_stack))"],
+        "modifies": ["*"],
+        "properties": ["C04"],
+    })
     # the four comprehension forms share one method (class-level aliases visit_X = _visit_comprehension)
     for cls in ("ListComp", "GeneratorExp", "SetComp", "DictComp"):
         C.register(w, {
